@@ -15,11 +15,13 @@ META = {
         "prefix modes (they tile [0,LEN) exactly; header fields use the reversed codec, the body the plain one; array "
         "codecs iterate source and destination in the same direction).  Display/FromStr/from_str_with entry points are "
         "shown to be those two functions."
+        "  The text serializer and parser themselves are decided by abstract evaluation (wmodel / rmodel, DESIGN 9.5): writes replayed for every buffer length of a dense range, parser outcomes for all combinations of abstract decoder results; the idiom-based window rules described above are the fallback when a function cannot be evaluated completely."
     ),
     "trusted_base": ["rustc nightly front end and constant evaluator", "hex_simd::{encode(.., Upper), decode} are each other's inverse on hex digits (external)"],
     "assumptions": [],
     "not_decided": ["hex-simd internals"],
 }
+TECHNIQUE = 'abstract evaluation of the text serializer and parser (views of an opaque buffer, every buffer/input length of a dense range, all outcome combinations of the part decoders), exhaustive evaluation of the hex codecs over all byte values / byte classes, table inverse rules'
 
 
 def run(ctx, FS):
